@@ -111,9 +111,9 @@ def tStatsJson (m : Nat) (e : List (Option Float)) (v : Vars Float) (ncMean ncMe
     throw "the test against zero does not receive model_var"
   if resultNcVar != 4 || resultAllNcVar != 4 then
     throw "the ceiling test does not receive noise_ceil_var"
-  let ok := e.all Option.isSome
-  let ef : Nat → Float := fun i => (e.getD i none).getD 0
-  if !ok then pure (obj [("pair", Json.null), ("zero", Json.null), ("nc", Json.null)]) else
+  -- round 7: a model without any value has an undefined effect (IEEE NaN here, as in numpy); its
+  -- statistics are undefined, those of the other models are not affected
+  let ef : Nat → Float := fun i => (e.getD i none).getD (0.0 / 0.0)
   let pair := (List.range m).map (fun i => (List.range m).map (fun k =>
     absG (tPairMat epsF m ef v.diff i k)))
   let zero := (List.range m).map (fun i => tZero epsF ef (listFn v.model) i)
@@ -152,7 +152,7 @@ def resultOp (j : Json) : R Json := do
       match shape with
       | [n] => pure (getMeansFixed nB m n E)
       | _ => throw "fixed / crossvalidation evaluations are 3-D"
-    else pure (getMeansBoot nB m shape E)
+    else pure (getMeansSpec nB m shape E)
   let eff := (List.range m).map (effect nB shape E)
   let base := [("means", ofList ofOptF means), ("effects", ofList ofOptF eff)]
   let vj := fldD j "var" Json.null
@@ -183,8 +183,8 @@ def resultOp (j : Json) : R Json := do
     let ciPart : List (String × Json) := match q with
       | none => []
       | some q =>
-        let ms := means.map (fun x => x.getD 0)
-        let okm := means.all Option.isSome
+        let ms := means.map (fun x => x.getD (0.0 / 0.0))
+        let okm := true
         let cis := List.zipWith (fun mu se => resultCi mu se q) ms sem
         let ebs := List.zipWith (fun mu se => resultEbCi mu se q) ms sem
         let ue := v.model.map (fun mv => utilEbCi mv q)
